@@ -101,6 +101,7 @@ def exec_for(it, node):
         x = iterv.at(k)
         if V.is_val(x):
             st.note_ref(x)
+            st.assume(x != V.ABSENT)
         it.bind_target(node.target, x)
         try:
             it.exec_block(node.body)
